@@ -40,8 +40,33 @@ func c20Plain(class, name string) string {
 		return "\xfe\xc3" + name + "\xff=~|\x80z"
 	case "empty":
 		return ""
+	case "huge":
+		return strings.Repeat("H"+name, 2000) // 4000 bytes: its ciphertext is longer than a browser would store, a non-browser client returns it
+	case "issued":
+		// a text that is itself a cookie value the server issued under the current key (a handler echoing what a client sent)
+		k := fmt.Sprintf("%d/%s", c20Keylen, name)
+		if v, ok := c20IssuedCache[k]; ok {
+			return v
+		}
+		v, err := encryptcookie.EncryptCookie("inner-"+name, base64.StdEncoding.EncodeToString(c20RawKey(c20Keylen)))
+		if err != nil {
+			panic(err)
+		}
+		c20IssuedCache[k] = v
+		return v
 	}
 	return strings.Repeat("L"+name, 700)
+}
+
+var c20Keylen int // key length of the case being replayed (sequential drivers)
+var c20IssuedCache = map[string]string{}
+
+func c20RawKey(n int) []byte {
+	k := make([]byte, n)
+	for i := range k {
+		k[i] = byte(i*7 + n)
+	}
+	return k
 }
 
 func gcmOpen(key []byte, b64 string) (string, bool) {
@@ -65,10 +90,8 @@ func TestC20(t *testing.T) {
 			t.Fatalf("bad case %v", err)
 		}
 		n++
-		rawKey := make([]byte, cs.Keylen)
-		for i := range rawKey {
-			rawKey[i] = byte(i*7 + cs.Keylen)
-		}
+		c20Keylen = cs.Keylen
+		rawKey := c20RawKey(cs.Keylen)
 		otherKey := make([]byte, cs.Keylen)
 		for i := range otherKey {
 			otherKey[i] = byte(i*11 + 3)
